@@ -87,7 +87,7 @@ def _logs_dump_tree(e):
 
 
 CLIENT_ASSUME = ["net.Conn delivers bytes in order and honours armed deadlines (the scripted connection and loopback TCP do)",
-                 "the verif hook VerifAttachConn only sets the client's conn field (attach mode starts with connection 0 established; connect() itself is exercised in tcp mode)",
+                 "the harness sets the client's one net.Conn field by reflection (attach mode starts with connection 0 established; connect() itself is exercised in tcp mode)",
                  "reply frames handed to the client are encoded with rscp.Write on the harness's own cipher states (C01 ties Write to the model)"]
 
 def _json_value(hexs):
@@ -162,6 +162,11 @@ def extra_c17(work, tier, seed, stats):
         stats["package_level_vars"] = len(d.get("vars") or [])
         for w in d.get("writes") or []:
             if w["var"] in ("Log", "Now"):
+                continue
+            if w["kind"] == "address":
+                # taking the address is not a write; the scan cannot follow the pointer: the footprint argument no longer checks
+                out.append({"kind": "soft", "case": "footprint %s %s" % (w["var"], w["pos"]), "impl": json.dumps(w), "model": None,
+                            "message": "package rscp takes the address of the package-level variable %s in a function body (%s): the footprint scan cannot tell whether it is written through the pointer" % (w["var"], w["pos"])})
                 continue
             out.append({"kind": "predicate", "case": "footprint %s %s" % (w["var"], w["pos"]), "impl": json.dumps(w), "model": None,
                         "message": "package rscp writes the package-level variable %s in a function body (%s at %s): shared mutable state besides the logger and the clock" % (w["var"], w["kind"], w["pos"])})
